@@ -186,10 +186,10 @@ class Harness:
         self.ctx.assume(z3.substitute(fact, (root.u, root.u2)))
         self.ctx.assume(z3.ForAll([x], z3.Implies(z3.And(x >= 0, x < root.n), z3.substitute(fact, (root.u, x)))))
 
-    def fail(self, name, why, replay=None):
+    def fail(self, name, why, replay=None, **meta):
         """an obligation that is violated whenever this program point is reachable"""
         full = f"{self.udesc['prop']}.{self.udesc['name']}.{name}"
-        self.ctx.oblige(full, z3.BoolVal(False), kind="ensures", replay=replay, why=why)
+        self.ctx.oblige(full, z3.BoolVal(False), kind="ensures", replay=replay, why=why, **meta)
 
     # ---- running the real code -----------------------------------------------------------------
     def load(self, qualname, bound_self=None):
@@ -288,8 +288,45 @@ def _Harness_slice(self, qualname, first=None, last=None, first_assign=None, las
     e.func = Closure(fs.node, self.interp.module_env(fs.mod), self.interp, fs.mod, fs.cls, qualname)
     for k, v in (env or {}).items():
         e.set(k, v)
+    # dependency closure: a name the slice reads that the harness did not supply and that ONE earlier top-level statement
+    # `name = <expression>` defines (no other store to it in between) is computed by that real statement first -- so that
+    # extracting a sub-expression into a local just before the slice does not put the slice out of reach
+    stmts = list(body[i0 : i1 + 1])
+    supplied = set((env or {}).keys())
+
+    def _stores(st, nm):
+        for n in ast.walk(st):
+            if isinstance(n, ast.Name) and n.id == nm and isinstance(n.ctx, (ast.Store, ast.Del)):
+                return True
+        return False
+
+    pre, first = [], i0
+    changed = True
+    while changed:
+        changed = False
+        assigned = set()
+        for st in pre + stmts:
+            reads = [n.id for n in ast.walk(st) if isinstance(n, ast.Name) and isinstance(n.ctx, ast.Load)]
+            for nm in reads:
+                if nm in supplied or nm in assigned:
+                    continue
+                cands = [j for j in range(first) if isinstance(body[j], ast.Assign) and len(body[j].targets) == 1 and isinstance(body[j].targets[0], ast.Name) and body[j].targets[0].id == nm]
+                if not cands:
+                    continue
+                j = cands[-1]
+                if any(_stores(body[k], nm) for k in range(first) if k != j) or body[j] in pre:
+                    continue
+                pre.insert(0, body[j])
+                pre.sort(key=lambda x: x.lineno)
+                changed = True
+                break
+            if changed:
+                break
+            for n in ast.walk(st):
+                if isinstance(n, ast.Name) and isinstance(n.ctx, ast.Store):
+                    assigned.add(n.id)
     try:
-        self.interp.exec_block(body[i0 : i1 + 1], e)
+        self.interp.exec_block(pre + stmts, e)
     except SymRaise as ex:
         if ex.exc.clsname == "NameError" and ex.exc.args and ex.exc.args[0] not in (env or {}):
             # the slice reads a local that is defined before it and that the harness did not supply: a limit of the slice
@@ -473,7 +510,8 @@ def run_unit(udesc, tier="quick", timeout_ms=None, known=None):
             ax = theory_np.axiom_instances(list(ob.pc) + [ob.goal]) + _count_axioms(list(ob.pc) + [ob.goal])
             if ax:
                 ob.pc = list(ob.pc) + ax
-            res = discharge(list(ob.pc) + [z3.Not(ob.goal)], timeout_ms, both=both)
+            # (an obligation may ask for a larger budget: the few nonlinear infeasibility proofs whose solver time varies)
+            res = discharge(list(ob.pc) + [z3.Not(ob.goal)], int(timeout_ms * ob.meta.get("budget_factor", 1)), both=both)
             if res["verdict"] == "sat" and ob.meta.get("replay_decides") and ob.meta.get("replay") is not None:
                 # the clause is a SUFFICIENT condition chosen by the contract (stronger than the property's wording): a
                 # counter-model of it is not yet a counter-example of the property -- the replay on the real code decides
